@@ -182,9 +182,6 @@ def oracle(h):
     tainted = None                       # a known-class step earlier in the history explains later duplicates
     tainted24 = False                    # a Logon was received while a resend was awaited (initiator)
     tainted11 = False                    # a class-D11 SequenceReset moved the expected number: the watermark is off
-    served_rr = False                    # an inbound ResendRequest was dispatched earlier (D12: may rewind next_num_out)
-    tainted12 = False                    # ... and afterwards a ResendRequest of ours was written without the state
-                                         #     becoming RESENDREQ_AWAITING (its journal write failed on a duplicate key)
     for i, (op, step) in enumerate(zip(h.ops, h.steps)):
         before, after = h.worlds[i], h.worlds[i + 1]
         if op[0] != 0:
@@ -246,8 +243,7 @@ def oracle(h):
             if awaiting:
                 fails.append((i, "ResendRequest written although one is outstanding (up to %r)" % mark,
                               "D24-logon-while-awaiting" if (cls_d24 or tainted24) else
-                              ("D11-seqreset-any" if tainted11 else
-                               ("D12-resend-rewind" if tainted12 else None))))
+                              ("D11-seqreset-any" if tainted11 else None)))
             elif not gap:
                 fails.append((i, "ResendRequest without a gap (34=%r, expected %r)" % (seq, exp),
                               "D11-seqreset-any" if cls_d11 else None))
@@ -258,10 +254,6 @@ def oracle(h):
             fails.append((i, "message numbered %r above the expected %r triggered no ResendRequest" % (seq, exp),
                           "D11-seqreset-any" if (cls_d11 or tainted11) else
                           ("D26-acceptor-relogon-ignored" if cls_d26 else None)))
-        if rreqs and alive and after["st"] != 12 and served_rr:
-            tainted12 = True
-        if mtype == "2" and alive:
-            served_rr = True
         if rreqs and not awaiting:
             awaiting, mark = True, seq
         exp = new_exp
